@@ -19,10 +19,15 @@ AboutTypes == {"rr", "nack", "pli", "sr", "ccfb"}
 AboutCount(e, s) == Cardinality({i \in DOMAIN e.sum : e.sum[i].t \in AboutTypes /\ e.sum[i].ssrc = s})
 Bump(e) == [s \in DOMAIN ub |-> ub[s] + (IF e.a = "wire" /\ e.t = "rtcp" /\ ~e.app THEN AboutCount(e, s) ELSE 0)]
 
+\* P4 "beyond one already in flight": one emission per LOOP GOROUTINE can be in flight when Unbind returns.  A script that
+\* calls BindRTCPWriter twice has started two loops (every loop-driven member starts one per call), each of which may have
+\* taken its snapshot of the stream just before the Unbind - two reports about the SSRC are then legitimate.  (Corrected
+\* false alarm: the bound was the constant 1; found by the thorough tier on `... bindw ... bindw, wait, unbindl`.)
+InFlight == IF nbindw > 1 THEN nbindw ELSE 1
 Accept(e) ==
   IF e.a = "pre" THEN TRUE
   ELSE IF e.a = "wire" THEN /\ (~e.closed \/ e.app)                               \* P1 (application packets pass through)
-                            /\ \A s \in DOMAIN ub : Bump(e)[s] <= 1              \* P4
+                            /\ \A s \in DOMAIN ub : Bump(e)[s] <= InFlight        \* P4
   ELSE IF e.a = "end" THEN ~e.aborted /\ e.leaked = 0                             \* P2
   ELSE ~e.blocked /\ e.panic = ""                                                 \* P3
 
